@@ -50,6 +50,24 @@ def classify(case, outs, got, stuck=False):
     return None
 
 
+def handled_fanout_joined_twice(run, arn):
+    """The listed sibling finding's other symptom: the failure of a fan-out was taken by its Catch/Retry, a sibling that was never stopped finished
+    afterwards and completed the join AGAIN - the history shows more <Type>StateExited than <Type>StateEntered events for that fan-out state (after a
+    <Type>StateFailed), and the states after it run twice, racing each other to the terminal status."""
+    h = (getattr(run, "histories", None) or {}).get(arn) or []
+    types = [e.get("type") for e in h]
+    if not any(t in ("ParallelStateFailed", "MapStateFailed") for t in types):
+        return False
+    entered, exited = {}, {}
+    for e in h:
+        t = e.get("type", "")
+        if t in ("ParallelStateEntered", "MapStateEntered"):
+            n = e["stateEnteredEventDetails"]["name"]; entered[n] = entered.get(n, 0) + 1
+        elif t in ("ParallelStateExited", "MapStateExited"):
+            n = e["stateExitedEventDetails"]["name"]; exited[n] = exited.get(n, 0) + 1
+    return any(exited[n] > entered.get(n, 0) for n in exited)
+
+
 def lost_branch_metadata(run, arn):
     """The one prompt symptom of the same listed finding: after a handled fan-out failure check_pending_results deleted the branch metadata
     of the whole execution while a sibling was about to enter a nested Map/Parallel state; its deferred delegate then fails on
@@ -106,7 +124,7 @@ def compare(ctx, case, tag="gen", policy=None):
             ctx.violation("outcome-not-admissible", S.witness_of(run, dict(expected=[repr(o) for o in outs[:4]], engine=[st, out, err], family=tag,
                                                                         ref_facts=outs[0].facts)),
                           classify(case, outs, (st, out, err), stuck=(st == "NONE" or (err == "States.Timeout" and t is not None and t >= 1_700_000_000 + run.world.execution_ttl)
-                                                                      or lost_branch_metadata(run, arn))))
+                                                                      or lost_branch_metadata(run, arn) or handled_fanout_joined_twice(run, arn))))
         elif not rec_ok:
             ctx.violation("record-disagrees-with-notification", S.witness_of(run, dict(record=rec, engine=[st, out, err])), None)
         return ok
